@@ -472,6 +472,11 @@ pub fn run(toks: &[&str]) -> String {
 /// client held before.   ->  <accesses> <result> <kinds> <ms> <record returned by the next call>
 pub fn run_stall(toks: &[&str]) -> String {
     let mode: u32 = p(toks[0]);
+    // mode 5 <k>: k complete updates race with the first k passes of the call (one during each copy),
+    // then the daemon starts the next update and dies
+    let raced: u64 = if mode == 5 { p(toks[1]) } else { 0 };
+    let pass = Rc::new(std::cell::Cell::new(0u64));
+    let first_read = Rc::new(std::cell::Cell::new(true));
     let path = scratch_dir().join(format!("stall-{}", SEQ.fetch_add(1, std::sync::atomic::Ordering::SeqCst)));
     let _ = std::fs::remove_file(&path);
     let mut w = ShmWriter::new(&path).expect("ShmWriter::new");
@@ -502,9 +507,23 @@ pub fn run_stall(toks: &[&str]) -> String {
                 'L'
             }
             Access::Store16 { .. } => 'S',
-            Access::Fence { .. } => 'F',
+            Access::Fence { .. } => {
+                pass.set(pass.get() + 1);
+                first_read.set(true);
+                'F'
+            }
             Access::CellWrite { .. } => 'W',
             Access::CellRead { .. } => {
+                if mode == 5 && first_read.get() {
+                    first_read.set(false);
+                    let g = unsafe { ((base + OFF_GENERATION) as *const u16).read_volatile() };
+                    if pass.get() < raced {
+                        let g2 = if g >= 65534 { 2 } else { g + 2 };
+                        unsafe { ((base + OFF_GENERATION) as *mut u16).write_volatile(g2) };
+                    } else if pass.get() == raced {
+                        unsafe { ((base + OFF_GENERATION) as *mut u16).write_volatile(g + 1) };
+                    }
+                }
                 if n == 3 && mode == 1 {
                     // the daemon starts an update right after the reader's first generation load, then stalls
                     unsafe { ((base + OFF_GENERATION) as *mut u16).write_volatile(3) };
